@@ -383,7 +383,7 @@ def excl_monitor(prop, m, trace):
 
 _EXCL_RULE = ("exclusive: 2-10 (thorough: up to 27) calls of all styles (Call, CallAfter, CallAsync, Start, StartAfter, CallWithOptions with ExclusiveWork / "
               "ExclusiveStart / ExclusiveWait) on 1-3 keys of one real Exclusive, each from its own goroutine; harness work functions resolve at once, block on a gate before or "
-              "after resolving (the resolve-to-return gap), resolve twice, resolve from three goroutines at once, or return without resolving; the controller releases gates in a PRNG interleaving and, with several keys, "
+              "after resolving (the resolve-to-return gap), resolve twice, resolve from three goroutines at once, resolve with an error result and keep running, or return without resolving; the controller releases gates in a PRNG interleaving and, with several keys, "
               "keeps key 0's work blocked until every caller of the other keys has returned (a blocked key is reported as !stuck); the verif hook events (attach with count, "
               "escape, deliver, run, swap, work, resolve, returned, clear with count), attributed to calls through the creating goroutine, plus the functions' own events and the "
               "received outcomes must be accepted step by step by one instance of the Lean transition system per key (item identity, counts, who becomes the runner and when, "
